@@ -18,7 +18,7 @@ rc, out = sh("git -C /repo worktree add --detach %s HEAD" % wt)
 assert rc == 0, out
 try:
     def tests(feat=""):
-        rc, out = sh("cargo test --offline %s 2>&1 | grep -E 'test result|^error' | head -3" % feat, cwd=wt)
+        rc, out = sh("cargo test --offline %s 2>&1 | grep -a -E 'test result|^error' | head -3" % feat, cwd=wt)
         return out.strip()
     # demo without patch
     rc, out = sh("git apply %s/demo.diff" % src, cwd=wt); assert rc == 0, "demo does not apply: " + out
@@ -36,6 +36,16 @@ finally:
     sh("git -C /repo worktree remove --force %s" % wt)
     shutil.rmtree(wt, ignore_errors=True)
 print("confirmation:", json.dumps(meta["confirm"]), "confirmed=", meta["confirmed"])
+if os.environ.get("SEED_CONFIRM_ONLY"):
+    # phase 1 only (runs in parallel for several seeds): store the seed; tools/seedrecheck.py runs the checks later
+    d = "/verif/seeded/%s" % sid
+    os.makedirs(d, exist_ok=True)
+    for f in ("patch.diff", "demo.diff", "README.md"):
+        if os.path.exists(os.path.join(src, f)):
+            shutil.copy(os.path.join(src, f), os.path.join(d, f))
+    meta["check_results"] = {}; meta["detected_by"] = []
+    json.dump(meta, open(os.path.join(d, "meta.json"), "w"), indent=1)
+    sys.exit(0)
 # run the checks against the mutated /repo
 assert sh("git -C /repo status --porcelain")[1].strip() == "", "/repo is dirty"
 results = {}
